@@ -49,8 +49,9 @@ type Input struct {
 	HashSupported bool        `json:"hashSupported"`
 	Required      [][2]string `json:"required"`
 	// concretisation only (ignored by the model, theorem concretisation_irrelevant):
-	Reader string `json:"reader"` // blob: how the reader delivers the bytes ("bytes", "dataEOF", "oneByte", "half", "chunksEOF")
-	Plugin bool   `json:"plugin"` // the signature names an installed verification plugin that owns the identity check and approves
+	Reader      string `json:"reader"`      // blob: how the reader delivers the bytes ("bytes", "dataEOF", "oneByte", "half", "chunksEOF")
+	ViaRegistry bool   `json:"viaRegistry"` // oci: through notation.Verify and a repository listing this one signature
+	Plugin      bool   `json:"plugin"`      // the signature names an installed verification plugin that owns the identity check and approves
 }
 
 type Obs struct {
@@ -203,11 +204,19 @@ func (w *world) envelopes(c *common.Ctx, d ocispec.Descriptor) []envCase {
 			`","digest":"` + string(digest.FromString("another artifact")) + `","size":1}}`),
 		"duplicate-target-last-exact": []byte(`{"targetArtifact":{"mediaType":"x","digest":"` + string(digest.FromString("zzz")) +
 			`","size":1},"targetArtifact":` + string(dj) + `}`),
-		"null-target":    []byte(`{"targetArtifact":null}`),
-		"not-json":       []byte(`this is not json`),
-		"array":          []byte(`[1,2,3]`),
-		"extra-field":    []byte(`{"targetArtifact":` + string(dj) + `,"extra":true}`),
-		"size-as-string": []byte(`{"targetArtifact":{"mediaType":"` + d.MediaType + `","digest":"` + string(d.Digest) + `","size":"528"}}`),
+		"null-target": []byte(`{"targetArtifact":null}`),
+		"not-json":    []byte(`this is not json`),
+		"array":       []byte(`[1,2,3]`),
+		"extra-field": []byte(`{"targetArtifact":` + string(dj) + `,"extra":true}`),
+		// not ONE JSON document: something follows the first value (only white space may)
+		"trailing-second-payload": []byte(`{"targetArtifact":` + string(dj) + `}{"targetArtifact":{"mediaType":"` + d.MediaType + `","digest":"` +
+			string(digest.FromString("another artifact")) + `","size":1}}`),
+		"trailing-brace":      []byte(`{"targetArtifact":` + string(dj) + `}}`),
+		"trailing-text":       []byte(`{"targetArtifact":` + string(dj) + `} signed by hand`),
+		"trailing-null":       []byte(`{"targetArtifact":` + string(dj) + `} null`),
+		"trailing-whitespace": []byte(`{"targetArtifact":` + string(dj) + "}\n \t\r\n"),
+		"leading-whitespace":  []byte("\n  " + `{"targetArtifact":` + string(dj) + `}`),
+		"size-as-string":      []byte(`{"targetArtifact":{"mediaType":"` + d.MediaType + `","digest":"` + string(d.Digest) + `","size":"528"}}`),
 	}
 	for name, p := range odd {
 		b, err := common.SignEnvelope(common.EnvOpts{Format: common.MediaCOSE, Chain: w.chain, Payload: p})
@@ -424,7 +433,27 @@ func payloadOf(o *notation.VerificationOutcome) *Desc {
 	return &d
 }
 
-func runOCI(w *world, e envCase, lv levelCase, artifact ocispec.Descriptor, req [][2]string) (Input, Obs) {
+// oneSigRepo: a repository that resolves to the artifact and lists exactly one signature
+type oneSigRepo struct {
+	artifact ocispec.Descriptor
+	sig      []byte
+	format   string
+}
+
+func (r *oneSigRepo) Resolve(ctx context.Context, reference string) (ocispec.Descriptor, error) {
+	return r.artifact, nil
+}
+func (r *oneSigRepo) ListSignatures(ctx context.Context, desc ocispec.Descriptor, fn func([]ocispec.Descriptor) error) error {
+	return fn([]ocispec.Descriptor{{MediaType: ocispec.MediaTypeImageManifest, Digest: digest.FromBytes(r.sig), Size: int64(len(r.sig))}})
+}
+func (r *oneSigRepo) FetchSignatureBlob(ctx context.Context, desc ocispec.Descriptor) ([]byte, ocispec.Descriptor, error) {
+	return r.sig, ocispec.Descriptor{MediaType: r.format, Digest: digest.FromBytes(r.sig), Size: int64(len(r.sig))}, nil
+}
+func (r *oneSigRepo) PushSignature(ctx context.Context, mediaType string, blob []byte, subject ocispec.Descriptor, annotations map[string]string) (a, b ocispec.Descriptor, err error) {
+	return
+}
+
+func runOCI(w *world, e envCase, lv levelCase, artifact ocispec.Descriptor, req [][2]string, viaRegistry bool) (Input, Obs) {
 	store := common.NewMemStore()
 	if lv.trusted {
 		store.Certs["ca:c01"] = []*x509.Certificate{w.chain.Root().Cert}
@@ -454,6 +483,26 @@ func runOCI(w *world, e envCase, lv levelCase, artifact ocispec.Descriptor, req 
 		um[kv[0]] = kv[1]
 	}
 	vopts := notation.VerifierVerifyOptions{ArtifactReference: "reg.example/c01@" + artifact.Digest.String(), SignatureMediaType: e.format, UserMetadata: um}
+	if viaRegistry {
+		// the registry entry point: the same requirements must reach the verifier
+		_, outcomes, rerr := notation.Verify(context.Background(), v, &oneSigRepo{artifact: artifact, sig: e.bytes, format: e.format},
+			notation.VerifyOptions{ArtifactReference: vopts.ArtifactReference, MaxSignatureAttempts: 3, UserMetadata: um})
+		in := Input{Kind: "oci", Skip: lv.skip, Rest: lv.rest(e.signer), Artifact: toDesc(artifact), HashSupported: true, Required: req, Reader: "", Plugin: e.plugin, ViaRegistry: true}
+		in.ParseOk, in.IntegrityOk, in.PayloadTypeOk, in.Decoded, _ = facts(e.bytes, e.format)
+		in.Artifact.Annotations = [][2]string{}
+		o := Obs{Accepted: rerr == nil}
+		failed := rerr != nil
+		o.OutcomeError = &failed
+		if rerr == nil && len(outcomes) == 1 && !lv.skip {
+			b := outcomes[0].Error != nil
+			o.OutcomeError = &b
+			o.Payload = payloadOf(outcomes[0])
+		}
+		if len(um) != len(req) {
+			o.Accepted = !o.Accepted // the caller's map was modified: flagged
+		}
+		return in, o
+	}
 	outcome, verr := v.Verify(context.Background(), artifact, e.bytes, vopts)
 	// the caller's option maps are the caller's: a second verification with the SAME options value
 	// must see the same requirements and give the same answer
@@ -561,16 +610,22 @@ func Run(c *common.Ctx) error {
 				if e.label == "mutated" && rn != "none" && rn != "subset" {
 					continue
 				}
-				in, o := runOCI(w, e, lv, w.art, requiredMaps[rn])
+				in, o := runOCI(w, e, lv, w.art, requiredMaps[rn], false)
 				c.Emit(in, o)
 				count(e, in, o)
+				if e.label != "mutated" {
+					in, o := runOCI(w, e, lv, w.art, requiredMaps[rn], true)
+					c.Emit(in, o)
+					count(e, in, o)
+					c.Count("via=notation.Verify")
+				}
 				c.Count("level=" + lv.name)
 				c.Count("required=" + rn)
 				// the descriptor PRESENTED for verification may itself be unusual (a Resolve that leaves
 				// fields empty, another size): the signed target must still equal it field by field
 				if rn == "none" || rn == "subset" {
 					for _, av := range artifactVariants(w.art) {
-						in, o := runOCI(w, e, lv, av, requiredMaps[rn])
+						in, o := runOCI(w, e, lv, av, requiredMaps[rn], false)
 						c.Emit(in, o)
 						count(e, in, o)
 						c.Count("artifact-variant")
